@@ -679,3 +679,144 @@ def selector_table_rule(m, rid):
                    "disagree): the length/kind expression of the declaration is regenerated with characters missing or moved"
                    % (meth, text, got, want, len(bad), len(table)), m.loc(f))
     return r
+
+
+# ---------------------------------------------------------------------------------------------------------------
+# the list/spec helpers of fparser.common.utils used by fparser1, decided as tables with an item model
+def _mini_map(line):
+    """Model of Line.get_line(): character literals and the content of (outermost) parenthesised groups are replaced by placeholders;
+    returns (mapped text, restore function).  Placeholders are word characters only, like the real ones."""
+    out, table = [], {}
+    i, n = 0, len(line)
+
+    def key(kind):
+        return "%s_%d_" % (kind, len(table) + 1)
+    while i < n:
+        ch = line[i]
+        if ch in "'\"":
+            j = line.find(ch, i + 1)
+            j = n - 1 if j == -1 else j
+            k = key("_F2PY_STRING_CONSTANT")
+            table[k] = line[i:j + 1]
+            out.append(k)
+            i = j + 1
+        elif ch == "(":
+            depth, j = 1, i + 1
+            while j < n and depth:
+                if line[j] in "'\"":
+                    e = line.find(line[j], j + 1)
+                    j = n - 1 if e == -1 else e
+                elif line[j] == "(":
+                    depth += 1
+                elif line[j] == ")":
+                    depth -= 1
+                j += 1
+            inner = line[i + 1:j - 1] if depth == 0 else line[i + 1:j]
+            if inner.strip() and not inner.strip().replace("_", "").isalnum():
+                k = key("F2PY_EXPR_TUPLE")
+                table[k] = inner
+                out.append("(" + k + (")" if depth == 0 else ""))
+            else:
+                out.append(line[i:j])
+            i = j
+        else:
+            out.append(ch)
+            i += 1
+
+    def restore(text):
+        for k, v in table.items():
+            text = text.replace(k, v)
+        return text
+    return "".join(out), restore
+
+
+def _item_model(PE, line, restore=None):
+    """What fparser1 helpers use of a reader Line: copy(line, apply_map), get_line(), apply_map(text)."""
+    o = PE.Obj({})
+    state = {}
+
+    def get_line():
+        if "mapped" not in state:
+            state["mapped"], state["restore"] = _mini_map(line)
+        return state["mapped"]
+
+    def apply_map(text):
+        get_line()
+        return state["restore"](text)
+    o.fields["line"] = line
+    o.fields["get_line"] = get_line
+    o.fields["apply_map"] = apply_map
+    o.fields["copy"] = lambda l_=None, apply_map_=False, **k_: _item_model(
+        PE, apply_map(line if l_ is None else l_) if (apply_map_ or k_.get("apply_map")) else (line if l_ is None else l_))
+    return o
+
+
+HELPER_TABLE = [
+    # (function, args, kwargs, expected)   -- `ITEM` stands for the item model of the statement the text was cut from
+    ("split_comma", ["a, b(1,2), 'x,y'", "ITEM"], {}, ["a", "b(1,2)", "'x,y'"]),
+    ("split_comma", ["a,,b", "ITEM"], {}, ["a", "b"]),
+    ("split_comma", ["a,,b", "ITEM"], {"keep_empty": True}, ["a", "", "b"]),
+    ("split_comma", ["1:n", "ITEM"], {"comma": ":"}, ["1", "n"]),
+    ("split_comma", [":", "ITEM"], {"comma": ":", "keep_empty": True}, ["", ""]),
+    ("split_comma", ["f(a:b):n", "ITEM"], {"comma": ":"}, ["f(a:b)", "n"]),
+    ("split_comma", ["", "ITEM"], {}, []),
+    ("split_comma", ["a, b", None], {}, ["a", "b"]),
+    ("parse_array_spec", ["1:n, m, :", "ITEM"], {}, [("1", "n"), ("m",), ("", "")]),
+    ("parse_array_spec", ["0:f(i,j), *", "ITEM"], {}, [("0", "f(i,j)"), ("*",)]),
+    ("specs_split_comma", ["unit=5, fmt='(a)'", "ITEM"], {}, ["UNIT = 5", "FMT = '(a)'"]),
+    ("specs_split_comma", ["10, file='a=b.txt'", "ITEM"], {}, ["10", "FILE = 'a=b.txt'"]),
+    ("specs_split_comma", ["c, name='x'", "ITEM"], {"upper": True}, ["C", "NAME = 'x'"]),
+    ("specs_split_comma", ["a, b(1,2), c", "ITEM"], {}, ["a", "b(1,2)", "c"]),
+    ("specs_split_comma", ["", "ITEM"], {}, []),
+    ("specs_split_comma", ["6, '(1x,\"a=\",i3)'", "ITEM"], {}, ["6", "'(1x,\"a=\",i3)'"]),
+    ("specs_split_comma", ["a(merge(1,2,n==1)), stat=ierr", "ITEM"], {}, ["a(merge(1,2,n==1))", "STAT = ierr"]),
+    ("parse_bind", ["bind(c, name='f=g') rest", "ITEM"], {}, (["C", "NAME = 'f=g'"], "rest")),
+    ("parse_bind", ["bind(c)", "ITEM"], {}, (["C"], "")),
+    ("parse_bind", ["result(r)", "ITEM"], {}, (None, "result(r)")),
+    ("parse_result", ["result(r) bind(c)"], {}, ("r", "bind(c)")),
+    ("parse_result", ["result ( r )"], {}, ("r", "")),
+    ("parse_result", ["x"], {}, (None, "x")),
+    ("extract_bracketed_list_items", ["x(a, b:c) y", "ITEM"], {}, [["a"], ["b", "c"]]),
+]
+
+
+def helper_table_rule(m, rid):
+    from sa import pureeval as PE
+    from rules import regex_rules
+    r = RuleResult(rid, "the list/spec helpers fparser1 cuts its statements with (split_comma, specs_split_comma, parse_array_spec, parse_bind, "
+                        "parse_result, extract_bracketed_list_items), decided as tables with a model of the reader item (literals and "
+                        "parenthesised groups hidden by get_line, restored by apply_map): every piece comes back character for character; "
+                        "only a NAME before '=' is a keyword")
+    r.floor = 20
+    ev = regex_rules.evaluator_with_funcs(m, "fparser.common.utils")
+    ev.g["repr"] = repr
+    ev.g["ParseError"] = lambda *a, **k: PE.PyRaise("ParseError", " ".join(map(str, a)))
+    for fname, args, kw, want in HELPER_TABLE:
+        f = m.module_func("fparser.common.utils", fname)
+        if f is None:
+            r.error("fparser.common.utils.%s vanished" % fname)
+            continue
+        r.instances += 1
+        a = [(_item_model(PE, args[0]) if x == "ITEM" else x) for x in args]
+        try:
+            got = ev.run_function(f.node, a, dict(kw))
+        except PE.PyRaise as err:
+            got = "raises %s" % err.exc_type
+        except PE.Unsupported as err:
+            r.error("%s cannot be interpreted statically (%s)" % (fname, err))
+            continue
+
+        def norm(v):
+            if isinstance(v, tuple):
+                return tuple(norm(x) for x in v)
+            if isinstance(v, list):
+                return [norm(x) for x in v]
+            return v
+        ok = norm(got) == want
+        shown = "%s(%s%s)" % (fname, ", ".join(repr(x) if x != "ITEM" else "item" for x in args), "".join(", %s=%r" % kv for kv in kw.items()))
+        r.ob(ok, "%s -> %r" % (shown, got) if r.obligations % 5 == 0 else None)
+        if not ok:
+            r.fail("%s|helper-table|%s" % (fname, args[0]), "%s gives %r, expected %r: the piece is regenerated with characters changed "
+                   "(a '=' inside a literal or a parenthesised expression taken for the keyword separator, text lost at a delimiter ...)"
+                   % (shown, got, want), m.loc(f))
+    return r
